@@ -57,6 +57,15 @@ CANARIES = [
     ('c09-result-off-by-one', 'C09', 'mindsdb_sql/planner/steps.py', "return Result(self.step_num)", "return Result(self.step_num + 1)", 'C09.result.numbered'),
     ('c09-foreign-steps-write', 'C09', 'mindsdb_sql/planner/query_planner.py', "        return self.plan.add_step(self.get_integration_select_step(select))",
      "        step = self.get_integration_select_step(select)\n        step.step_num = len(self.plan.steps)\n        self.plan.steps.append(step)\n        return step", 'C09.disc.'),
+    ('c04-dquote-lower', 'C04', 'mindsdb_sql/parser/dialects/mindsdb/lexer.py',
+     "        t.value = t.value.replace('\\\\\"', '\"').replace(\"\\\\'\", \"'\")\n        return t", "        t.value = t.value.replace('\\\\\"', '\"').replace(\"\\\\'\", \"'\").lower()\n        return t", 'C04.dec.mindsdb.DQUOTE_STRING'),
+    ('c04-ident-lower', 'C04', 'mindsdb_sql/parser/ast/select/identifier.py', "parts = [x[0].strip('`') for x in match]", "parts = [x[0].strip('`').lower() for x in match]", 'C04.ident.dec'),
+    ('c04-variable-strip-both', 'C04', 'mindsdb_sql/parser/dialects/mindsdb/lexer.py',
+     "        if t.value[0] == '\"':\n            t.value = t.value.strip('\\\"')\n        elif t.value[0] == \"'\":\n            t.value = t.value.strip('\\'')\n        elif t.value[0] == \"`\":\n            t.value = t.value.strip('`')\n        return t\n\n    @_(r'@@",
+     "        if t.value[0] == '\"':\n            t.value = t.value.strip('\\\"\\'')\n        elif t.value[0] == \"'\":\n            t.value = t.value.strip('\\'')\n        elif t.value[0] == \"`\":\n            t.value = t.value.strip('`')\n        return t\n\n    @_(r'@@", 'C04.dec.mindsdb.VARIABLE'),
+    ('c04-sqlite-strip-space', 'C04', 'mindsdb_sql/parser/parser.py', "        return p[0].strip('\\'')", "        return p[0].strip('\\' ')", 'C04.dec.sqlite.QUOTE_STRING'),
+    ('c04-harmless-slice', 'C04', 'mindsdb_sql/parser/parser.py', "        return p[0].strip('\\'')", "        return p[0][1:-1]", None),
+    ('c04-int-plus-one', 'C04', 'mindsdb_sql/parser/dialects/mindsdb/parser.py', "    def integer(self, p):\n        return int(p[0])", "    def integer(self, p):\n        return int(p[0]) + (1 if len(p[0]) > 18 else 0)", 'C04.int.mindsdb'),
 ]
 
 
